@@ -293,6 +293,12 @@ pub fn gen_state(r: &mut Rng, o: &GenOpts) -> PushState {
             s.configuration.min_random_float = x;
             s.configuration.max_random_float = y;
         }
+        if r.chance(1, 6) {
+            // two FINITE bounds whose width is not: max - min overflows f32 (documented: no result)
+            let (lo, hi) = *r.pick(&[(-3.0e38f32, 3.0e38f32), (f32::MIN, f32::MAX), (-2.0e38, 2.5e38), (-3.4e38, 1.0e37)]);
+            s.configuration.min_random_float = lo;
+            s.configuration.max_random_float = hi;
+        }
         if r.chance(1, 3) {
             // an interval only a few ulps wide, far from zero: the half-open bound must still hold
             let lo = *r.pick(&[1.0e7f32, 16777216.0, -16777220.0, 1.0, 1000.0, -3.0e8]);
